@@ -294,6 +294,9 @@ class ExplorerScriptSsbCompiler:
     ) -> dict[str, ExplorerScriptMacro]:
         """Updates path information of all of the macros. See the field descriptions for more details"""
         for macro in macros.values():
+            if macro.included__absolute_path not in (None, subfile_path):
+                # A macro the sub-file imported from yet another file: its paths were set when that file was loaded.
+                continue
             macro.included__absolute_path = subfile_path
             if basefile_path is not None:
                 macro.included__relative_path = os.path.relpath(subfile_path, os.path.dirname(basefile_path))
